@@ -2,6 +2,8 @@
 // on fresh chain33 test nodes, with duplicates (same block, later block, after a re-organisation,
 // TxHeight transactions inside/outside their window), expired, under-paid, wrong-chain and
 // mis-signed transactions, single and in groups of 2-4 (groups.go, scen_groups.go) (C28).
+// The nodes keep 128 (default), 1 or 3 blocks in memory (BlockChain.DefCacheSize); scen_evict.go
+// makes the refill of the duplicate window on a disconnection depend on a block outside that cache.
 //
 // The mempool is part of the case: before every delivery it is asked which of the table's Hash
 // ids it holds (XSnap: the model's pool must answer the same), after a delivery that
@@ -38,6 +40,7 @@ import (
 
 const (
 	unknownID = 999999
+	evictBase = 1000000 // Idx of the reorg-evict cases (their own sequence beside the cycle of kinds)
 	diffBits  = 0x1f2fffff
 )
 
@@ -45,7 +48,8 @@ func quiet() { log.SetLogLevel("crit") }
 
 // ---------- nodes ----------
 
-func newNode(low, high int64) *testnode.Chain33Mock {
+// cache = number of blocks the node keeps in memory (BlockChain.DefCacheSize; 0 = the default, 128)
+func newNode(low, high, cache int64) *testnode.Chain33Mock {
 	cfg := types.NewChain33Config(types.GetDefaultCfgstring())
 	mc := cfg.GetModuleConfig()
 	mc.BlockChain.Driver = "memdb"
@@ -53,6 +57,9 @@ func newNode(low, high int64) *testnode.Chain33Mock {
 	mc.Wallet.Driver = "memdb"
 	mc.BlockChain.LowAllowPackHeight = low
 	mc.BlockChain.HighAllowPackHeight = high
+	if cache > 0 {
+		mc.BlockChain.DefCacheSize = cache
+	}
 	m := testnode.NewWithConfig(cfg, nil)
 	quiet()
 	cl := m.GetClient()
@@ -134,6 +141,7 @@ type caseIn struct {
 	Kind   string   `json:"kind"`
 	Low    int64    `json:"low"`
 	High   int64    `json:"high"`
+	Cache  int64    `json:"cache,omitempty"`  // blocks the node keeps in memory (0 = default 128); not part of the Coq case
 	Script []string `json:"script,omitempty"` // what was done (informational; the case is regenerated from seed/idx/kind)
 }
 
@@ -1231,7 +1239,7 @@ func scenarioReorgWindow(w *world) {
 
 func runCase(o *hlib.Out, f *testnode.Chain33Mock, in caseIn) {
 	t0 := time.Now()
-	r := newNode(in.Low, in.High)
+	r := newNode(in.Low, in.High, in.Cache)
 	t1 := time.Now()
 	defer func() {
 		t2 := time.Now()
@@ -1259,6 +1267,8 @@ func runCase(o *hlib.Out, f *testnode.Chain33Mock, in caseIn) {
 		scenarioReorg(w)
 	case in.Kind == "reorg-window":
 		scenarioReorgWindow(w)
+	case in.Kind == "reorg-evict":
+		scenarioReorgEvict(w)
 	case in.Kind == "group-forge":
 		scenarioGroupForge(w)
 	case in.Kind == "group-hdrempty":
@@ -1282,7 +1292,7 @@ func main() {
 	opts := hlib.ParseFlags()
 	o := hlib.NewOut(opts.OutDir)
 	defer o.Close()
-	f := newNode(2, 3)
+	f := newNode(2, 3, 0)
 	defer f.Close()
 	quiet()
 	start := time.Now()
@@ -1308,12 +1318,27 @@ func main() {
 		kinds = strings.Split(v, ",")
 	}
 	windows := [][2]int64{{2, 3}, {1, 1}, {2, 3}, {1, 2}, {3, 2}}
+	// blocks the node keeps in memory: must not be observable (0 = the default of 128, more than any chain here)
+	caches := []int64{0, 1, 3}
+	evict := os.Getenv("HC28_EVICT") != "0" && os.Getenv("HC28_KINDS") == ""
 	for i := 0; i < n; i++ {
 		if time.Since(start) > budget {
 			fmt.Fprintln(os.Stderr, "hC28: time budget reached after", i, "cases")
 			break
 		}
-		wd := windows[(i/len(kinds))%len(windows)]
-		runCase(o, f, caseIn{Seed: opts.Seed, Idx: i, Kind: kinds[i%len(kinds)], Low: wd[0], High: wd[1]})
+		if evict && i%8 == 2 {
+			// reorg-evict: the block that a disconnection must bring back into the duplicate window has
+			// left (cache <= low+high) or is the oldest block of (cache = low+high+1) the in-memory block cache
+			j := i / 8
+			wd := windows[(j+1)%len(windows)]
+			cs := []int64{1, wd[0] + wd[1], 2, wd[0] + wd[1] - 1, wd[0] + wd[1] + 1}
+			runCase(o, f, caseIn{Seed: opts.Seed, Idx: evictBase + j, Kind: "reorg-evict", Low: wd[0], High: wd[1], Cache: cs[j%len(cs)]})
+		}
+		if os.Getenv("HC28_EVICT") == "only" {
+			continue
+		}
+		r := i / len(kinds)
+		wd := windows[r%len(windows)]
+		runCase(o, f, caseIn{Seed: opts.Seed, Idx: i, Kind: kinds[i%len(kinds)], Low: wd[0], High: wd[1], Cache: caches[r%len(caches)]})
 	}
 }
